@@ -107,7 +107,20 @@ def rule_row_fresh(db: ProgramDB) -> List[Instance]:
                 fresh_defs = [a for a in own_nodes(m.node) if isinstance(a, ast.Assign) and any(
                     isinstance(t, ast.Name) and t.id == name for t in a.targets) and _is_fresh_row(a.value)]
                 if not fresh_defs:
-                    continue       # the row is the loop variable itself (owned by this iteration) or a parameter
+                    # the row is the loop variable itself (owned by this iteration) or a parameter - unless it is an alias of
+                    # the row of an OUTER loop: then every row of the inner loop is that one dict, extended in place
+                    alias_defs = [a for a in own_nodes(m.node) if isinstance(a, ast.Assign) and any(
+                        isinstance(t, ast.Name) and t.id == name for t in a.targets) and isinstance(a.value, ast.Name)]
+                    outer_targets = {x.id for l in enclosing if l is not inner and isinstance(l, ast.For)
+                                     for x in ast.walk(l.target) if isinstance(x, ast.Name)}
+                    al = [a for a in alias_defs if a.value.id in outer_targets]
+                    if al:
+                        n += 1
+                        out.append(inst("ROW-FRESH", VIOLATION, m, f"{m.short}[yield {name}]",
+                                        f"`{unparse(al[0])}` makes `{name}` the row of the outer loop itself; the inner loop "
+                                        f"`{unparse(inner).splitlines()[0][:50]}` extends and yields it once per element: all "
+                                        f"these rows are one dict, overwritten by the next element", line=y.lineno))
+                    continue
                 n += 1
                 inside = [a for a in fresh_defs if any(x is a for x in ast.walk(inner))]
                 ok = bool(inside)
@@ -204,7 +217,8 @@ def rule_except_fired(db: ProgramDB) -> List[Instance]:
         # accepted: constant False, or the loop body tests the operand's truth flag before treating the row as a hit
         loop = s.consumer_node if isinstance(s.consumer_node, ast.For) else None
         tests_flag = loop is not None and any(isinstance(x, ast.If) and "self.right._is_false_" in unparse(x.test) for x in loop.body[:2])
-        ok = s.ywf == ("const", False) or tests_flag
+        default_false = s.ywf[0] == "default" and isinstance(s.ywf[1], ast.Constant) and s.ywf[1].value is False
+        ok = s.ywf == ("const", False) or default_false or tests_flag
         out.append(inst("EXCEPT-FIRED", HOLDS if ok else VIOLATION, m, f"ExceptIf._evaluate__[{unparse(s.call)[:50]}]",
                         "the refinement side is asked for true rows only" if ok else
                         "the refinement side can yield rows on which its condition is false, and every row it yields counts as "
@@ -303,10 +317,25 @@ def rule_none_tests(db: ProgramDB) -> List[Instance]:
     n = 0
     for m in ic.methods.values():
         got: Set[str] = set()
-        for a in own_nodes(m.node):
-            if isinstance(a, ast.Assign) and isinstance(a.value, ast.Call) and call_attr(a.value) == "get" \
-                    and len(a.targets) == 1 and isinstance(a.targets[0], ast.Name):
-                got.add(a.targets[0].id)
+        # the index nodes: self.cache, a parameter named `cache` (the recursion), and what is read out of one of them
+        tries: Set[str] = {"self.cache"} | ({"cache"} if "cache" in m.params else set())
+        changed = True
+        while changed:
+            changed = False
+            for a in own_nodes(m.node):
+                if isinstance(a, ast.Assign) and len(a.targets) == 1 and isinstance(a.targets[0], ast.Name):
+                    t = a.targets[0].id
+                    v = a.value
+                    if unparse(v) in tries and t not in tries:
+                        tries.add(t)
+                        changed = True
+                    if isinstance(v, ast.Call) and call_attr(v) == "get" and unparse(v.func.value) in tries:
+                        if t not in got:
+                            got.add(t)
+                            changed = True
+                        if t not in tries:
+                            tries.add(t)       # a sub-trie read from a trie is a trie
+                            changed = True
         if not got:
             continue
         for t in own_nodes(m.node):
@@ -320,7 +349,7 @@ def rule_none_tests(db: ProgramDB) -> List[Instance]:
                                         f"missed or replaced by the wildcard walk", line=t.lineno))
                     elif isinstance(leaf, ast.Compare) and isinstance(leaf.left, ast.Name) and leaf.left.id in got:
                         n += 1
-                        ok = all(isinstance(o, (ast.Is, ast.IsNot)) for o in leaf.ops)
+                        ok = all(isinstance(o, (ast.Is, ast.IsNot, ast.In, ast.NotIn)) for o in leaf.ops)
                         out.append(inst("NONE-TEST", HOLDS if ok else VIOLATION, m, f"{m.short}[{unparse(leaf)}]",
                                         "presence tested by identity with None" if ok else
                                         f"`{unparse(leaf)}` compares a stored value with ==", line=t.lineno))
